@@ -176,7 +176,7 @@ pub fn quiet_panics() {
         let prev = std::panic::take_hook();
         std::panic::set_hook(Box::new(move |info| {
             let msg = info.to_string();
-            if msg.contains("script panic") || msg.contains("injected loader panic") { return; }
+            if msg.contains("script panic") || msg.contains("injected loader panic") || msg.contains("Failed to load essential asset") { return; }
             prev(info);
         }));
     });
@@ -409,6 +409,17 @@ impl WorldExec {
                     if via_any { let c = self.any(); go!(c) } else { match &self.fe { Fe::Shared(c) => go!(c), Fe::Local(c) => go!(c) } }
                 };
                 match r { Err(()) => "panic".into(), Ok(Err(e)) => format!("err {e}"), Ok(Ok((v, p))) => format!("ok {} {v}", self.h(p)) }
+            }
+            "expect" if w.len() == 3 => {
+                // `load_expect`: the handle, or a panic for every load error
+                let (ty, id) = (w[1], s(2));
+                self.note_id(&id);
+                let via_any = self.via_any;
+                let r: Result<(String, usize), ()> = {
+                    macro_rules! go { ($c:expr) => { with_compound!(ty, T => catch(|| { let h = $c.load_expect::<T>(&id); (h.read().canon(), h as *const _ as usize) }), else return "bad-op".into()) } }
+                    if via_any { let c = self.any(); go!(c) } else { match &self.fe { Fe::Shared(c) => go!(c), Fe::Local(c) => go!(c) } }
+                };
+                match r { Err(()) => "panic".into(), Ok((v, p)) => format!("ok {} {v}", self.h(p)) }
             }
             "owned" if w.len() == 3 => {
                 let (ty, id) = (w[1], s(2));
